@@ -51,14 +51,54 @@ def seg (t : String) (pi : Option Int := none) : Seg := { text := strBytes t, pi
 example : NodeWF exNode = true ∧ WT exNode exVal = true := by decide
 /-- … on which the repaired model finds the element. -/
 example : (getM GenCfg.fixed exNode .ptr exVal [seg "M", seg "a"] == .some "int" (.int 7)) = true := by decide
-/-- The tree as it was at the pinned commit is not accepted: with the path `L.-1` it panicked (finding
-`negative-index`, since repaired by a `fix:` commit). The model of the current tree still is not accepted
-everywhere: with `L.5` it hands out the enclosing slice (`container-fallthrough`, open). -/
+/-- The tree as it was at the pinned commit (`GenCfg.original`) is not accepted: with the path `L.-1` it
+panicked (finding `negative-index`) and with `L.5` it handed out the enclosing slice (`container-fallthrough`);
+both have since been repaired by `fix:` commits. -/
 theorem repo_not_correct :
     getAccepts (nav exNode exVal [seg "L", seg "-1" (some (-1))]) (getM GenCfg.original exNode .ptr exVal [seg "L", seg "-1" (some (-1))]) = false ∧
     (getM GenCfg.original exNode .ptr exVal [seg "L", seg "-1" (some (-1))] == .panic) = true ∧
-    getAccepts (nav exNode exVal [seg "L", seg "5" (some 5)]) (getM GenCfg.repo exNode .ptr exVal [seg "L", seg "5" (some 5)]) = false := by
+    getAccepts (nav exNode exVal [seg "L", seg "5" (some 5)]) (getM GenCfg.original exNode .ptr exVal [seg "L", seg "5" (some 5)]) = false := by
   decide
 end NonVacuity
+
+/-! ### The tree as it is now
+
+After the generator `fix:` commits (negative index, container fall-through, typed-nil roots) no switch that
+get mode consults is left on in `GenCfg.repo`: the model of the current tree *is* the repaired model, so C01 is
+proved about the emitter as it stands — for every argument form. -/
+section CurrentTree
+
+theorem getFallThrough_repo (n : Node) (root : Bool) (v : Val) (e : Bool) (b : Option Res) :
+    getFallThrough GenCfg.repo n root v e b = getFallThrough GenCfg.fixed n root v e b := rfl
+
+theorem getN_repo (p : List Seg) : ∀ (n : Node) (root : Bool) (v : Val) (buf : Option Res),
+    getN GenCfg.repo n root v p buf = getN GenCfg.fixed n root v p buf := by
+  induction p with
+  | nil => intro n root v buf; cases n <;> rfl
+  | cons s rest ih =>
+    intro n root v buf
+    have hneg : GenCfg.repo.negIndexPanics = GenCfg.fixed.negIndexPanics := rfl
+    cases n with
+    | basic i => rfl
+    | struct i chld => simp only [getN, ih, getFallThrough_repo]
+    | map i k mv => simp only [getN, ih, getFallThrough_repo]
+    | slice i e => simp only [getN, ih, getFallThrough_repo, hneg]
+
+theorem getM_repo (n : Node) (f : Form) (v : Val) (p : List Seg) :
+    getM GenCfg.repo n f v p = getM GenCfg.fixed n f v p := by
+  have h : rootOfC GenCfg.repo f = rootOfC GenCfg.fixed f := rfl
+  unfold getM
+  rw [h]
+  cases p with
+  | nil => rfl
+  | cons s rest => simp only [getN_repo]
+
+/-- C01 for the emitter as it stands. -/
+theorem get_current (n : Node) (v : Val) (p : List Seg) (f : Form)
+    (hf : rootOf f = .ok) (hwf : NodeWF n = true) (hwt : WT n v = true) :
+    getAccepts (nav n v p) (getM GenCfg.repo n f v p) = true := by
+  rw [getM_repo]; exact get_correct n v p f hf hwf hwt
+
+end CurrentTree
 
 end Inspector.C01
